@@ -17,7 +17,7 @@ ASSUMPTIONS = ["pad_spec carries the hypothesis cap <= 2^56 (the >>56 barrier of
 
 def configs(tier):
     if tier == "quick":
-        return [("native", "", "plain")]
+        return [("native", "", "plain"), ("native", "", "plain", {"HX_ALIGN": "3"})]
     return [("native", "", "plain"), ("portable", "", "plain"), ("native", "", "asan")]
 
 
